@@ -280,9 +280,10 @@ func runC09Stream(r *core.Rng, doc *gen.Doc, s *gen.Stream, run, seed uint64, ti
 func init() {
 	register(&Spec{
 		ID: "C09", Level: "exploration",
-		Run:   RunC09,
-		Check: CheckC09,
-		Quick: 600, Thorough: 40000,
+		Run:       RunC09,
+		Check:     CheckC09,
+		MustReach: []string{"literal-corpus", "malformed-dump", "bom-prefixed-stream"},
+		Quick:     600, Thorough: 40000,
 		Rule: "one evaluation = the resume loop over one generated stream under one delivery schedule, compared with one-shot delivery of the same bytes; schedules per stream: every single split point (streams <= 6 KiB; sampled around line ends and 16 KiB multiples for longer ones) with both EOF kinds, byte-wise and fixed chunk sizes around 4096/16384, and seeded random schedules with zero-length reads (<= 99 in a row), short reads and boundaries attracted to line ends; distinct_nontrivial = distinct (stream hash, schedule) pairs whose stream contains at least one dump and whose schedule has >= 2 producer steps or a fault",
 		Assumptions: []string{
 			"the generators (gen.Dump, gen.Race, gen.Junk) bound what 'every input' means",
